@@ -108,13 +108,14 @@ def check(repo, rep):
             rep.ob('split() uses no initial phase (init_min <= 1: the configuration C04 is proved for)', okv, w, tag + ':' + pn, '%s is %s' % (pn, show(v)[:80] if v else None))
         # mode = 4*drop + 2*strict
         mv = args.get('mode')
-        strict_cond = [c for c in d['leaf'].conds if c[0] == ('p', 'strict_min_dur')]
-        if mv is None or len(strict_cond) > 1:
+        def decided(pname):
+            cs = [c[1] for c in d['leaf'].conds if c[0] == ('p', pname)]
+            return [cs[0]] if cs else [False, True]
+        if mv is None:
             rep.unknown('split(): mode argument not resolved')
         else:
-            for drop in (False, True):
-                stricts = [strict_cond[0][1]] if strict_cond else [False, True]
-                for strict in stricts:
+            for drop in decided('drop_trailing_silence'):
+                for strict in decided('strict_min_dur'):
                     try:
                         got = const_value(cx, mv, env=dict(drop_trailing_silence=drop, strict_min_dur=strict))
                         rep.ob('tokenizer mode = 4*drop_trailing_silence + 2*strict_min_dur', got == 4 * drop + 2 * strict, w, tag + ':mode[drop=%s,strict=%s]' % (drop, strict),
